@@ -100,7 +100,7 @@ func (e *Exec) isZeroTerm(v Value) *smt.Term {
 	case *MapObj:
 		return smt.BoolConst(x == nil || len(x.Keys) == 0)
 	case Opaque:
-		if x.Kind == "time" {
+		if x.Kind == "time" || x.Kind == "timelocal" {
 			return smt.False // stdtime fields are always encoded
 		}
 		return smt.True
